@@ -31,6 +31,8 @@ PROPS["C15"] = {
                 "TestC15WireBuffer": T(400, 12000, shards={"quick": 4, "thorough": 16}),
                 "TestC15RFCInputs": LIST(),
                 "TestC15NilEntropy": LIST(),
+                "TestC15ProveWireBuffer": T(200, 6000, shards={"quick": 2, "thorough": 8}),
+                **{"TestC15BitSweep%d" % i: LIST(configs=["default"]) for i in range(8)},
                 "TestC15EncodingList": LIST(),
                 "TestC15TorsionList": LIST(),
                 # thorough only: Go native fuzzing (mutation from honest / adversarial / hostile seeds, reference inside the
